@@ -20,6 +20,27 @@ PBR = "mqtt::connection::packet_builder::PacketBuildResult"
 RS = "mqtt::connection::packet_builder::ReadState"
 
 
+
+def reset_by_hand(F, N, ex, p, PB, REASM):
+    """No reset() call on the path, but its last whole-field writes leave every reassembly field as new() does
+    (reset() written out in place).  A push onto a field after its last write disqualifies the path."""
+    nv = N.new_values(PB)
+    if nv is None:
+        return False
+    sub = modref.Norm(F, ex.interned_rev)
+    sub._re = N._re
+    cur = {}
+    for e in p.effects:
+        if e[0] == "write" and e[1] == ("self",) and e[2] and e[2][0][0] == "f":
+            n = e[2][0][2]
+            cur[n] = sub.norm(e[3]) if len(e[2]) == 1 else ("UNKNOWN", "partial-write")
+        elif e[0] == "push" and e[1] == ("self",):
+            for n in REASM:
+                if ("'%s'" % n) in repr(e[4:]):
+                    cur[n] = ("UNKNOWN", "push")
+    return all(n in nv and cur.get(n) == nv[n] for n in REASM)
+
+
 def discover_roles(F, feed_paths, interned):
     """Reassembly fields by role (type first, then use), so that renaming a private field is not an anchor loss:
     state (the enum), header_buf (byte vector), multiplier (the only u32), raw_buf (optional byte vector),
@@ -146,7 +167,8 @@ def check(run, F, tier):
         n[v] += 1
         rs = [i for i, e in conn.calls(p, PB + "::reset")]
         if not rs:
-            bad = (p, "%s returned without reset()" % v)
+            if not reset_by_hand(F, N, ex, p, PB, REASM):
+                bad = (p, "%s returned without reset()" % v)
             continue
         after = [e for e in p.effects[rs[-1] + 1:] if e[0] == "write" and e[1] == ("self",) and conn.field_of_write(e) in REASM and
                  not (e[3][0] == "sym" and e[3][1][0] == "mut" and e[3][1][1][0].endswith("::reset"))]
@@ -243,7 +265,7 @@ def check(run, F, tier):
             # final state / multiplier
             st_w = [e for e in p.effects if e[0] == "write" and conn.field_of_write(e) == R["state"]]
             mu_w = [e for e in p.effects if e[0] == "write" and conn.field_of_write(e) == R["multiplier"]]
-            reset = bool(conn.calls(p, PB + "::reset"))
+            reset = bool(conn.calls(p, PB + "::reset")) or reset_by_hand(F, N, ex2, p, PB, REASM)
             final_state = st_w[-1][3][2] if st_w and st_w[-1][3][0] == "agg" else "RemainingLength"
             if not reset and final_state == "RemainingLength" and mu_w:
                 v = mu_w[-1][3]
